@@ -1132,7 +1132,10 @@ class PendingClassDef(_PendingCompoundStmt[ClassDef]):
             )
             decorator_names.append(decorator_name)
 
-        class_bases = [expr_transf(self.nsp, _expr) for _expr in self.node.bases]
+        class_bases: expr = Tuple(
+            elts=[expr_transf(self.nsp, _expr) for _expr in self.node.bases],
+            ctx=Load(),
+        )
 
         metaclass_expr = None
         class_keywords = []
@@ -1140,6 +1143,20 @@ class PendingClassDef(_PendingCompoundStmt[ClassDef]):
             if _keyword.arg == "metaclass":
                 # filter the metaclass keyword
                 metaclass_expr = expr_transf(self.nsp, _keyword.value)
+                # The metaclass will be the function of the call,
+                # which runs before the arguments.
+                # So the bases and the keywords before the metaclass are saved to tmps
+                # to keep the order (bases, keywords from left to right)
+                if self.node.bases:
+                    bases_name = Name(id=ol_name(OL_CLASS_HEADER_TMP))
+                    return_list.append(NamedExpr(target=bases_name, value=class_bases))
+                    class_bases = bases_name
+                for _converted_keyword in class_keywords:
+                    keyword_name = Name(id=ol_name(OL_CLASS_HEADER_TMP))
+                    return_list.append(
+                        NamedExpr(target=keyword_name, value=_converted_keyword.value)
+                    )
+                    _converted_keyword.value = keyword_name
                 continue
             class_keywords.append(
                 keyword(
@@ -1158,7 +1175,7 @@ class PendingClassDef(_PendingCompoundStmt[ClassDef]):
                     func=metaclass_expr,
                     args=[
                         Constant(value=self.node.name),
-                        Tuple(elts=class_bases, ctx=Load()),
+                        class_bases,
                         Dict(keys=[], values=[]),
                     ],
                     keywords=class_keywords,
